@@ -15,7 +15,7 @@ class IndentationFeatures(object):
     @property
     def is_fitted(self):
         if self.is_valid:
-            return self.dataset.fit_properties["success"]
+            return self.dataset.fit_properties.get("success", False)
         else:
             return False
 
@@ -51,7 +51,7 @@ class IndentationFeatures(object):
 
     @property
     def datax_apr(self):
-        xaxis = self.dataset.fit_properties["x_axis"]
+        xaxis = self.dataset.fit_properties.get("x_axis", "tip position")
         seg = self.dataset["segment"] == 0
         x = self.dataset[xaxis][seg].copy()
         # Make sure everything is ok
@@ -60,7 +60,7 @@ class IndentationFeatures(object):
 
     @property
     def datay_apr(self):
-        yaxis = self.dataset.fit_properties["y_axis"]
+        yaxis = self.dataset.fit_properties.get("y_axis", "force")
         seg = self.dataset["segment"] == 0
         y = self.dataset[yaxis][seg].copy()
         return y
